@@ -33,15 +33,23 @@ def cases(tier, seed, prop):
         if css and rnd.random() < .5:
             # configurations that share a cache must agree on the snippet table (the cache is keyed by nothing else)
             tbl = rnd.choice([None, {'foo': 'foo-prop:10', 'bar': 'bar-prop:1.5|auto'}])
-            cands = [c for c in CSS_CFGS if c.get('snippets') == tbl and 'context' not in c]
+            cands = [c for c in CSS_CFGS if c.get('snippets') == tbl]      # scope contexts only filter: they share the table, hence may share the cache
             cfgs = [copy.deepcopy(rnd.choice(cands)) for _ in range(k)]
             shared_cache = True
             if tbl: pool_a = ['foo', 'bar', 'foo5', 'bar2', 'p10', 'foo', 'bar']      # the user snippets with numeric defaults
         else:
             cfgs = [copy.deepcopy(rnd.choice(pool_c)) for _ in range(k)]
-            shared_cache = css and all(c.get('snippets') == cfgs[0].get('snippets') and 'context' not in c for c in cfgs) and rnd.random() < .5
+            shared_cache = css and all(c.get('snippets') == cfgs[0].get('snippets') for c in cfgs) and rnd.random() < .5
         as_object = [rnd.random() < .4 for _ in cfgs]
         hist = []
+        if not css and rnd.random() < .12:
+            # BEM-heavy history: many expansions with different block names, then a probe that resolves `-elem` / `_mod` through its parent
+            cfgs = [{'options': {'bem.enabled': True}}]; as_object = [rnd.random() < .3]; k = 1
+            for i in range(rnd.randint(10, 18)):
+                hist.append({'s': 'div.%s%d>p.-item+span._m' % (rnd.choice(['nav', 'blk', 'card', 'x']), i), 'cfg': 0, 'cache': False})
+            probe = {'s': rnd.choice(['div.page>div.-head>span._big', 'section.card>h2.-title+p.-text', 'ul.list>li.-it*2>a._on']), 'cfg': 0, 'cache': False}
+            out.append({'cfgs': cfgs, 'as_object': as_object, 'hist': hist, 'probe': probe, 'g': 'bem'})
+            continue
         for _ in range(rnd.randint(2, 10)):
             ab = rnd.choice(pool_a)
             if rnd.random() < .15: ab = gens.mutate(rnd, ab, gens.ABBR_ALPHA)
